@@ -411,6 +411,64 @@ func c14LintBoth(dir, callee, caller string) (fileErrs, astErrs []*Error, err er
 	return
 }
 
+// c14CaseTwins: two DIFFERENT local actions whose directory names differ in letter case only (a
+// case-sensitive file system holds both), with different interfaces; each call is checked against
+// the action it names, in both step orders and from two files of one run.
+func c14CaseTwins(t *testing.T, r *vReport, idx *int64, root string) {
+	type act struct{ dir, in, out string }
+	pairs := [][2]act{{{"Build", "alpha", "oa"}, {"build", "beta", "ob"}}, {{"tools/Pack", "alpha", "oa"}, {"tools/pack", "beta", "ob"}}, {{"x/Act", "alpha", "oa"}, {"X/act", "beta", "ob"}}}
+	for pi, pr := range pairs {
+		dir := filepath.Join(root, fmt.Sprintf("twins%d", pi))
+		files := map[string]string{".git/HEAD": "x\n"}
+		for _, a := range pr {
+			files[a.dir+"/action.yml"] = "name: n\ndescription: d\ninputs:\n  " + a.in + ":\n    description: d\n    required: true\noutputs:\n  " + a.out + ":\n    description: d\n    value: v\nruns:\n  using: composite\n  steps:\n    - run: echo\n      shell: bash\n"
+		}
+		for order := 0; order < 2; order++ {
+			for swapped := 0; swapped < 2; swapped++ {
+				*idx++
+				if !r.Mine(*idx) {
+					continue
+				}
+				first, second := pr[order], pr[1-order]
+				// with swapped inputs / outputs every step names the OTHER action's interface
+				in := func(a, other act) act {
+					if swapped == 1 {
+						return other
+					}
+					return a
+				}
+				w := "on: push\njobs:\n  j:\n    runs-on: ubuntu-latest\n    steps:\n" +
+					"      - uses: ./" + first.dir + "\n        id: s1\n        with:\n          " + in(first, second).in + ": v\n" +
+					"      - uses: ./" + second.dir + "\n        id: s2\n        with:\n          " + in(second, first).in + ": v\n" +
+					"      - run: echo ${{ steps.s1.outputs." + in(first, second).out + " }} ${{ steps.s2.outputs." + in(second, first).out + " }}\n"
+				files[".github/workflows/w.yml"] = w
+				os.RemoveAll(dir)
+				vWriteFiles(t, dir, files)
+				res := c01LintFileCopy(dir, filepath.Join(dir, ".github/workflows/w.yml"))
+				r.Evaluations++
+				r.Transitions++
+				r.Validated++
+				desc := fmt.Sprintf("local actions ./%s and ./%s (names differ in letter case only) order=%d swapped-interfaces=%d", pr[0].dir, pr[1].dir, order, swapped)
+				extra := map[string]any{"files": files}
+				if res.Err != nil || res.Panic != "" {
+					r.Violation("failure", fmt.Sprintf("%s: %v %s", desc, res.Err, vTrunc(res.Panic, 200)), map[string]any{"desc": desc, "src": w, "files": files})
+					continue
+				}
+				var wantMissing, wantExtra, wantProp []string
+				if swapped == 1 {
+					wantMissing = []string{"alpha", "beta"}
+					wantExtra = []string{"alpha", "beta"}
+					wantProp = []string{"oa", "ob"}
+				}
+				c14Compare(r, "missing-required-input", "case-twins", desc, w, c14Set(res.Errs, c14MissingRe), wantMissing, extra)
+				c14Compare(r, "undeclared-input", "case-twins", desc, w, c14Set(res.Errs, c14ExtraRe), wantExtra, extra)
+				c14Compare(r, "undeclared-output", "case-twins", desc, w, c14Set(res.Errs, c14PropRe), wantProp, extra)
+				r.Class(fmt.Sprintf("case-twins swapped=%d", swapped), swapped == 1)
+			}
+		}
+	}
+}
+
 func c14ErrKey(errs []*Error) string {
 	var l []string
 	for _, e := range errs {
@@ -749,6 +807,8 @@ func c14Workflows(t *testing.T, r *vReport, idx *int64, root string) {
 		// block scalars whose text is no YAML value when read on its own (a comment, a document
 		// marker): strings like every block scalar (block scalars holding a numeral, a boolean or null
 		// are left out: the AST does not record the style)
+		// one placeholder followed by text that ends in }}: a string, not a single expression
+		"${{ 1 }} }}", "${{ true }} x }}", "${{ 1 }}}}",
 		"|\n        # TODO", "|-\n        # TODO", ">-\n        # a\n        # b", "|-\n        ---", "|\n        ...", "|-\n        a # b"}
 	for _, ty := range []string{"string", "number", "boolean"} {
 		for _, v := range values {
@@ -801,7 +861,7 @@ func c14HasKind(errs []*Error, kinds ...string) bool {
 func TestVerifC14(t *testing.T) {
 	r := vNewReport("C14")
 	defer r.Write(t)
-	r.Extra["rule"] = "every spec of the bundled popular-actions table x call sites {none, required, all, required minus each, one extra, re-cased} with references to every declared and one undeclared output; 343 local action interfaces (3 inputs over absent/optional/required/required+default/optional+default/required+empty default/required+falsy default) x 0-2 outputs x every subset of declared inputs + extra + re-cased; 256 reusable-workflow input interfaces (2 inputs over absent | type x required x default incl. empty and falsy defaults) x 7 secret sets (explicit / absent required key, empty body, both declaration orders) x 0-1 outputs x 8+ call sites (none, required, all re-cased, extra input, extra secret, inherit, inherit without inputs, undeclared input holding an expression, minus each), interface derived from the file and from the AST (callee linted first in the same run), every case with 4 forms of the callee's `on:` (other events before / after workflow_call); 3 types x 51 typed values (literals in every spelling of the YAML core schema, plain and quoted; expressions); derivation agreement over 3 types x 6 spellings of required x 7 of default x 3 of a secret's required (literal and expression values) x 2 call sites. oracle = set arithmetic on the declared interface. class = (family, call site, expected report counts); non-trivial = something must be reported"
+	r.Extra["rule"] = "every spec of the bundled popular-actions table x call sites {none, required, all, required minus each, one extra, re-cased} with references to every declared and one undeclared output; 343 local action interfaces (3 inputs over absent/optional/required/required+default/optional+default/required+empty default/required+falsy default) x 0-2 outputs x every subset of declared inputs + extra + re-cased; 256 reusable-workflow input interfaces (2 inputs over absent | type x required x default incl. empty and falsy defaults) x 7 secret sets (explicit / absent required key, empty body, both declaration orders) x 0-1 outputs x 8+ call sites (none, required, all re-cased, extra input, extra secret, inherit, inherit without inputs, undeclared input holding an expression, minus each), interface derived from the file and from the AST (callee linted first in the same run), every case with 4 forms of the callee's `on:` (other events before / after workflow_call); 3 types x 54 typed values (literals in every spelling of the YAML core schema, plain and quoted; expressions); derivation agreement over 3 types x 6 spellings of required x 7 of default x 3 of a secret's required (literal and expression values) x 2 call sites. two local actions whose directory names differ in letter case only (3 pairs x step order x own / swapped interface); oracle = set arithmetic on the declared interface. class = (family, call site, expected report counts); non-trivial = something must be reported"
 	r.Extra["assumptions"] = []string{"for bundled actions the table itself is the declaration (its content is not frozen)", "assignability per docs/checks.md: string <- string|number, number <- number, boolean <- anything, anything <- any"}
 	root := vTempDir(t, "c14-")
 	if raw := vReplayInput(); raw != nil {
@@ -809,6 +869,7 @@ func TestVerifC14(t *testing.T) {
 			Desc, Src, Callee, What, Family string
 			ActionYml                       string `json:"action_yml"`
 			CalleeBase                      string `json:"callee_base"`
+			Files                           map[string]string
 			Want                            []string
 		}
 		jsonUnmarshal(raw, &rp)
@@ -834,6 +895,11 @@ func TestVerifC14(t *testing.T) {
 		for k := 0; k < 2; k++ {
 			var errs []*Error
 			switch {
+			case rp.Files != nil:
+				dir := filepath.Join(root, "replay-files")
+				os.RemoveAll(dir)
+				vWriteFiles(t, dir, rp.Files)
+				errs = c01LintFileCopy(dir, filepath.Join(dir, ".github/workflows/w.yml")).Errs
 			case rp.ActionYml != "":
 				dir := filepath.Join(root, "replay-la")
 				vWriteFiles(t, dir, map[string]string{".git/HEAD": "x\n", "act/action.yml": rp.ActionYml, ".github/workflows/w.yml": rp.Src})
@@ -872,4 +938,5 @@ func TestVerifC14(t *testing.T) {
 	c14Popular(r, &idx)
 	c14LocalActions(t, r, &idx, root)
 	c14Workflows(t, r, &idx, root)
+	c14CaseTwins(t, r, &idx, root)
 }
